@@ -5,6 +5,7 @@ import Driver.Streamer
 import Driver.Err
 import Driver.Retry
 import Driver.LockTime
+import Driver.Runner
 
 def dispatch (line : String) : String :=
   match (line.trimAscii.toString.splitOn " ").filter (· ≠ "") with
@@ -17,6 +18,8 @@ def dispatch (line : String) : String :=
   | "retryloop" :: rest => Driver.Retry.handleLoop rest
   | "backoff" :: rest => Driver.Retry.handleBackoff rest
   | "stale" :: rest => Driver.LockTime.handle rest
+  | "runner" :: rest => Driver.Runner.handle rest
+  | "collect" :: rest => Driver.Runner.handleCollect rest
   | _ => "bad-op"
 
 partial def loop (hin hout : IO.FS.Stream) : IO Unit := do
